@@ -5,6 +5,9 @@ From Verif.Base Require Import Tactics.
 From Verif.C08 Require Import Extracted Model Spec ProofsCodec ProofsFromFile Repack.
 Local Open Scope N_scope.
 
+Lemma u32_sub_none a b : u32_sub a b = None <-> a < b.
+Proof. unfold u32_sub. destruct (b <=? a) eqn:E; split; try discriminate; lia || reflexivity. Qed.
+
 Definition key_of (e : centry) : loc * id := (ce_loc e, ce_id e).
 
 (* a chunk together with the entries it stands for *)
@@ -170,6 +173,134 @@ Proof.
 Qed.
 
 End WithStore.
+
+(* ---- completeness: when every blob lies inside its pack (packs below 2^32 - MAX_HOLESIZE
+   bytes, which MAX_SIZE guarantees) and decodes, the repacker neither panics nor errs ---------- *)
+Section Complete.
+Variable store : id -> option bytes.
+Variable decode : bytes -> option N -> option bytes.
+
+Definition entry_inside (e : centry) : Prop :=
+  exists f, store (ce_pack e) = Some f /\
+    l_off (ce_loc e) + l_len (ce_loc e) <= N.of_nat (length f) /\
+    N.of_nat (length f) + MAX_HOLESIZE < U32 /\
+    decode (slice f (l_off (ce_loc e)) (l_len (ce_loc e))) (l_ulen (ce_loc e)) <> None.
+
+(* a chunk whose read stays inside the file of its pack *)
+Definition chunk_inside (c : cpb) : Prop :=
+  exists f, store (fst c) = Some f /\ bl_off (snd c) + bl_len (snd c) <= N.of_nat (length f) /\
+            N.of_nat (length f) + MAX_HOLESIZE < U32.
+
+Lemma cpb_coalesce_total a b :
+  chunk_inside a -> chunk_inside b ->
+  match cpb_coalesce true a b with
+  | MPanic => False
+  | MOk m => chunk_inside m
+  | MNo x y => x = a /\ y = b
+  end.
+Proof.
+  intros (fa & Sa & Ia & La) (fb & Sb & Ib & Lb). unfold cpb_coalesce. cbn [andb].
+  destruct (bytes_eqb (fst a) (fst b)) eqn:Ep; cbn [negb]; [|split; reflexivity].
+  apply bytes_eqb_eq in Ep. rewrite <- Ep, Sa in Sb. inv Sb.
+  unfold bl_coalesce, can_coalesce.
+  destruct (u32_add (bl_off (snd a)) (bl_len (snd a))) as [e|] eqn:E1;
+    [apply u32_add_some in E1 as [-> E1]|apply u32_add_none in E1; lia].
+  destruct (u32_add _ MAX_HOLESIZE) as [eh|] eqn:E2;
+    [apply u32_add_some in E2 as [-> E2]|apply u32_add_none in E2; lia].
+  destruct (negb (bl_off (snd b) <=? _)); [destruct a, b; split; reflexivity|].
+  destruct (negb (_ <=? bl_off (snd b))) eqn:E3; [destruct a, b; split; reflexivity|].
+  destruct (u32_add (bl_off (snd b)) (bl_len (snd b))) as [oe|] eqn:E4;
+    [apply u32_add_some in E4 as [-> E4]|apply u32_add_none in E4; lia].
+  destruct (u32_sub _ (bl_off (snd a))) as [sp|] eqn:E5;
+    [apply u32_sub_some in E5 as [-> E5]|apply u32_sub_none in E5; lia].
+  destruct (_ <=? LIMIT_PACK_READ); [|destruct a, b; split; reflexivity].
+  unfold bl_append.
+  assert (X1 : u32_add (bl_off (snd b)) (bl_len (snd b)) = Some (bl_off (snd b) + bl_len (snd b)))
+    by (apply u32_add_some; split; [reflexivity|lia]).
+  rewrite X1.
+  assert (X2 : u32_sub (bl_off (snd b) + bl_len (snd b)) (bl_off (snd a))
+               = Some (bl_off (snd b) + bl_len (snd b) - bl_off (snd a)))
+    by (apply u32_sub_some; split; [reflexivity|lia]).
+  rewrite X2. exists fb. cbn [fst snd bl_off bl_len]. split; [assumption|]. split; [lia|assumption].
+Qed.
+
+Lemma coalesce_go_total es : forall prev,
+  chunk_inside prev -> Forall entry_inside es ->
+  exists cs, coalesce_go (cpb_coalesce true) prev (map from_index_entry es) = Some cs /\ Forall chunk_inside cs.
+Proof.
+  induction es as [|e es IH]; intros prev Hp He; cbn [map coalesce_go].
+  - eexists. split; [reflexivity|]. constructor; [assumption|constructor].
+  - inversion He as [|e' es' (f & S & I' & L & _) He2]; subst.
+    assert (Hc : chunk_inside (from_index_entry e)).
+    { exists f. unfold from_index_entry, from_blob_location. cbn [fst snd bl_off bl_len]. auto. }
+    pose proof (cpb_coalesce_total prev (from_index_entry e) Hp Hc) as T.
+    destruct (cpb_coalesce true prev (from_index_entry e)) as [|m|x y]; [contradiction| |].
+    + apply IH; assumption.
+    + destruct T as [-> ->]. destruct (IH _ Hc He2) as (cs & -> & HF).
+      eexists. split; [reflexivity|]. constructor; assumption.
+Qed.
+
+Lemma copy_blobs_of_total f off len pid : forall es,
+  store pid = Some f -> off + len <= N.of_nat (length f) -> N.of_nat (length f) < U32 ->
+  Forall (fun e => ce_pack e = pid) es -> Forall entry_inside es ->
+  Forall (fun e => off <= l_off (ce_loc e) /\ l_off (ce_loc e) + l_len (ce_loc e) <= off + len) es ->
+  exists out, copy_blobs_of decode (slice f off len) off (map key_of es) = Ok out.
+Proof.
+  induction es as [|e es IH]; intros Hs Hin Hlt Hp Hi Hr; cbn [map copy_blobs_of key_of].
+  - eexists. reflexivity.
+  - inversion Hp as [|? ? Hp1 Hp2]; subst. inversion Hi as [|? ? (f' & S' & I' & L' & D') Hi2]; subst.
+    inversion Hr as [|? ? [Hlo Hhi] Hr2]; subst. rewrite Hs in S'. inv S'.
+    assert (Hsl : slice_blob (slice f' off len) off (ce_loc e) = Ok (slice f' (l_off (ce_loc e)) (l_len (ce_loc e)))).
+    { unfold slice_blob.
+      assert (X1 : u32_sub (l_off (ce_loc e)) off = Some (l_off (ce_loc e) - off)) by (apply u32_sub_some; split; [reflexivity|lia]).
+      rewrite X1.
+      assert (X2 : u32_add (l_off (ce_loc e)) (l_len (ce_loc e)) = Some (l_off (ce_loc e) + l_len (ce_loc e)))
+        by (apply u32_add_some; split; [reflexivity|lia]).
+      rewrite X2.
+      assert (X3 : u32_sub (l_off (ce_loc e) + l_len (ce_loc e)) off = Some (l_off (ce_loc e) + l_len (ce_loc e) - off))
+        by (apply u32_sub_some; split; [reflexivity|lia]).
+      rewrite X3.
+      assert (Hlen : N.of_nat (length (slice f' off len)) = len).
+      { unfold slice. rewrite firstn_length, skipn_length. lia. }
+      rewrite Hlen.
+      assert (X4 : ((len <? l_off (ce_loc e) + l_len (ce_loc e) - off) ||
+                    (l_off (ce_loc e) + l_len (ce_loc e) - off <? l_off (ce_loc e) - off)) = false) by lia.
+      rewrite X4. f_equal. unfold slice.
+      replace (N.to_nat (l_off (ce_loc e) + l_len (ce_loc e) - off - (l_off (ce_loc e) - off))) with (N.to_nat (l_len (ce_loc e))) by lia.
+      replace (N.to_nat (l_off (ce_loc e) - off)) with (N.to_nat (l_off (ce_loc e)) - N.to_nat off)%nat by lia.
+      apply slice_in_slice; lia. }
+    change (ce_loc e, ce_id e) with (key_of e). cbn [key_of fst snd]. rewrite Hsl.
+    destruct (decode _ _) as [pd|]; [|congruence].
+    destruct (IH Hs Hin Hlt Hp2 Hi2 Hr2) as (t & ->). eexists. reflexivity.
+Qed.
+
+Lemma repack_total_lemma es :
+  Forall entry_inside es -> exists out, repack true store decode es = Ok out.
+Proof.
+  intro Hi. unfold repack.
+  assert (Hc : exists cs, coalesce_all (cpb_coalesce true) (map from_index_entry es) = Some cs /\ Forall chunk_inside cs).
+  { destruct es as [|e es]; cbn [map coalesce_all].
+    - eexists. split; [reflexivity|constructor].
+    - inversion Hi as [|? ? (f & S & I' & L & _) Hi2]; subst.
+      apply coalesce_go_total; [|assumption].
+      exists f. unfold from_index_entry, from_blob_location. cbn [fst snd bl_off bl_len]. auto. }
+  destruct Hc as (cs & C & Hin). rewrite C.
+  destruct (coalesce_all_ok _ _ C) as (ess & HF & Hcat).
+  assert (Hall : Forall (Forall entry_inside) ess).
+  { apply Forall_forall. intros g Hg. apply Forall_forall. intros e He. rewrite Forall_forall in Hi. apply Hi.
+    rewrite <- Hcat. apply in_concat. exists g. split; assumption. }
+  clear C Hcat Hi. revert ess HF Hall. induction cs as [|c cs IH]; intros ess HF Hall; cbn [copy_chunks].
+  - eexists. reflexivity.
+  - inversion HF as [|? g ? ess' (H1 & H2 & H3) HF2]; subst. inversion Hall as [|? ? Hg Hall2]; subst.
+    inversion Hin as [|? ? (f & S & I' & L) Hin2]; subst.
+    assert (Hck : exists a, copy_chunk store decode c = Ok a).
+    { unfold copy_chunk. rewrite S. unfold read_of.
+      assert (Ec : (bl_off (snd c) + bl_len (snd c) <=? N.of_nat (length f)) = true) by lia. rewrite Ec, H1.
+      apply (copy_blobs_of_total f _ _ (fst c)); try assumption. unfold MAX_HOLESIZE in L. lia. }
+    destruct Hck as (a & ->). destruct (IH Hin2 _ HF2 Hall2) as (b & ->). eexists. reflexivity.
+Qed.
+
+End Complete.
 
 (* the pack-id conjunct is necessary: without it a sorted two-blob list gets foreign bytes *)
 Lemma repack_across_packs_refuted_lemma :
